@@ -101,6 +101,15 @@ def make_cases(ctx, vocab):
             # (with an explicit DATE_ORDER a lone number may be read as the year: which parts are stated is then unknown)
             add(gen_string(ps, rng, [m.capitalize() for m in MON], [w.capitalize() for w in WDN]), {"languages": ["en"]}, ps, "DATE_ORDER" not in pf, "abs",
                 rng.choice(RSETS), st=dict(pf))
+    # reference times that are timezone-AWARE (two different offsets), results observed as instants (TO_TIMEZONE,
+    # RETURN_AS_TIMEZONE_AWARE): a fully stated date is the same for every reference time, also as an instant
+    AW1 = {"dt": [2009, 3, 1, 12, 0, 0, 0], "tz": 19800}
+    AW2 = {"dt": [2033, 12, 31, 23, 59, 0, 0], "tz": -28800}
+    for outst in ({"TO_TIMEZONE": "UTC"}, {"RETURN_AS_TIMEZONE_AWARE": True}, {"TO_TIMEZONE": "Asia/Tokyo", "RETURN_AS_TIMEZONE_AWARE": True},
+                  {"TIMEZONE": "Europe/Paris", "TO_TIMEZONE": "UTC"}, {}):
+        for s in ["5 March 2015 10:00", "2015-03-05", "15 March 2015", "March 2015", "5 mars 2015 10:00", "2015-03-05 23:30", "15/03/2015"]:
+            add(s, {"languages": ["fr" if "mars" in s else "en"]}, set(), False, "abs", rng.choice(RSETS), st=dict(outst), b2=AW2)
+            cases[-1]["b1"] = AW1
     # custom-format and timestamp parsers: the relational clauses
     for s, fmt in [("March 2015", "%B %Y"), ("2015", "%Y"), ("15 March", "%d %B"), ("15/03/2015", "%d/%m/%Y"),
                    ("10:30", "%H:%M"), ("March", "%B"), ("15", "%d")]:
